@@ -1125,6 +1125,9 @@ class Executor:
         self.stats.funcs.add(fname)
         if len(st.frames) > 200:
             raise Unsupported("call depth")
+        if len(st.frames) > 24 and sum(1 for f in st.frames if f.fn is fn) > 6:
+            # runaway recursion (e.g. a handler that re-enters close from OnClose without bound): not explored further
+            raise Unsupported("recursion deeper than 6 activations of " + fname)
         nf = Frame(fn, retname)
         for p, a in zip(fn["params"], args):
             nf.locals[p["n"]] = a
